@@ -12,6 +12,8 @@ r = import_custom_exceptions, instantiate_custom_exceptions, instantiate_oldstyl
 harness/simnet.py in manual mode) and returns the observation plus the op line for the model.
 """
 import builtins
+import enum
+import fractions
 import os
 import sys
 import traceback
@@ -62,6 +64,10 @@ class Plain(object):
         return "<Plain>"
 
 
+class Shade(enum.IntEnum):
+    DARK = 3
+
+
 class BadRepr(object):
     """an argument that genuinely cannot be serialized: brine refuses it and its repr() raises"""
     def __repr__(self):
@@ -70,7 +76,7 @@ class BadRepr(object):
 
 OTHER_BY_CODE = {0: lambda: [1, 2], 1: lambda: {"a": 1}, 2: lambda: {3}, 3: lambda: bytearray(b"ab"), 4: lambda: CInt(5),
                  5: lambda: CStr("x"), 6: lambda: CBytes(b"x"), 7: lambda: CTuple((1, 2)), 8: lambda: CFrozenset([1]),
-                 9: lambda: CFloat(1.5), 10: lambda: CComplex(1, 2), 98: lambda: BadRepr(), 99: lambda: Plain()}
+                 9: lambda: CFloat(1.5), 10: lambda: CComplex(1, 2), 96: lambda: Shade.DARK, 97: lambda: fractions.Fraction(1, 3), 98: lambda: BadRepr(), 99: lambda: Plain()}
 
 
 def materialise(v):
@@ -127,7 +133,9 @@ def gen_small(r, depth=2, allow_other=True):
 
 
 # ------------------------------------------------------------------------------------------------ exception specs
-FIXED_ARGS = ["( )", "( I5 )", "( S97 I2 )", "( I1 S116,119,111 D4008000000000000 )", "( O0 )", "( N )", "( ( I1 ( I2 ) ) O1 )",
+# O96 an IntEnum member, O97 a Fraction, O5 an instance of a str subclass: immutable in Python's sense, but not one of the
+# twelve exact types brine carries by value — they travel as their repr()
+FIXED_ARGS = ["( O96 O97 ( O5 I1 ) )", "( )", "( I5 )", "( S97 I2 )", "( I1 S116,119,111 D4008000000000000 )", "( O0 )", "( N )", "( ( I1 ( I2 ) ) O1 )",
               "( D3ff8000000000000 B78 )", "( S55296 )", "( T X E )", "( { I1 } [ N I2 N ] )", "( O99 S120 O4 )"]
 SPECIAL = {  # class-aware constructor arguments (args text, kwargs)
     "OSError": [("( I2 S109,115,103 )", {}), ("( I2 S109 S102,110 )", {}), ("( I13 S109 S102 I0 S103 )", {}), ("( I11 S109 )", {}),
@@ -164,6 +172,10 @@ CUSTOM = [  # (cls string, constructor-args texts)
     ("pool:c09pool_loaded:RoError", ["( S120 )"]), ("pool:c09pool_fresh:RoError", ["( S120 )"]),
     ("pool:c09pool_loaded:NeedsNew", ["( I1 I2 )"]), ("pool:c09pool_fresh:NeedsNew", ["( I1 I2 )"]),
     ("pool:c09pool_loaded:BaseOnly", ["( I1 )"]), ("pool:c09pool_fresh:BaseOnly", ["( )"]),
+    ("pool:c09pool_loaded:DirNoArgs", ["( I1 I2 )"]), ("pool:c09pool_fresh:DirNoArgs", ["( I1 )"]),
+    ("pool:c09pool_loaded:DirDupArgs", ["( I1 O0 )"]), ("pool:c09pool_fresh:DirDupArgs", ["( I1 )"]),
+    ("pool:c09pool_loaded:Slotted", ["( I1 )"]), ("pool:c09pool_fresh:Slotted", ["( )"]),
+    ("pool:c09pool_loaded:BadProp", ["( I1 )"]), ("pool:c09pool_fresh:BadProp", ["( I1 )"]),
     ("dyn:c09pool_unknown:AppError", ["( I1 )"]), ("dyn:c09pool_loaded:Missing", ["( I1 )"]),
     ("dyn:c09pool_loaded:NotExc", ["( I1 )"]), ("dyn:c09pool_loaded:func", ["( )"]), ("dyn:c09pool_loaded:VALUE", ["( )"]),
     ("dyn:c09pool_fresh:Missing", ["( I1 )"]), ("dyn:c09pool_broken:AppError", ["( I1 )"]), ("dyn:os:error", ["( I1 )"]),
@@ -338,6 +350,7 @@ def observe_load(payload, rf, m, c, slots):
         except BaseException as ex:  # noqa
             res["seen"] = seen_from_exception(ex, m, c, slots)
     res["obj"] = obj
+    res["base"] = ve.base_token(obj)
     w.cleanup()
     return res
 
@@ -349,10 +362,10 @@ def capture(exc):
         return sys.exc_info()
 
 
-def model_line_rt(s, kind, mode, r, env, fmt, table, rec):
-    """mode: d = vinegar.dump alone, e = through Connection._send_exception"""
-    return "vin rt %s%s%s %s %s %s %s %s %s %s %s %s %s" % (s, kind, mode, r, env, fmt, table, rec[1], rec[2], rec[3], rec[4],
-                                                         rec[5], rec[7])
+def model_line_rt(s, kind, mode, r, env, fmt, table, rec, base="N"):
+    """mode: d = vinegar.dump alone, e = through Connection._send_exception; base: see vinegar_env.base_token"""
+    return "vin rt %s%s%s %s %s %s %s %s %s %s %s %s %s %s" % (s, kind, mode, r, env, fmt, table, base, rec[1], rec[2], rec[3],
+                                                            rec[4], rec[5], rec[7])
 
 
 def direct_product(spec, configs, with_tb=True):
@@ -379,13 +392,13 @@ def direct_product(spec, configs, with_tb=True):
                 except Exception:  # noqa
                     raise Skip("brine cannot put the dumped exception on the wire (end-to-end cases cover the fallback)")
         wire, pay = wires[s[:2]]
-        line = model_line_rt(s[:2] + "FF", rec[0], "d", r, env, fmt, table, rec)
         if wire is None:
+            line = model_line_rt(s[:2] + "FF", rec[0], "d", r, env, fmt, table, rec)
             yield s, r, line, dict(pay=pay, dump_failed=True, delta=[], seen=pay), info
             continue
         obs = observe_load(wire, rf, m, c, info["slots"])
         obs["pay"] = pay
-        yield s, r, line, obs, info
+        yield s, r, model_line_rt(s[:2] + "FF", rec[0], "d", r, env, fmt, table, rec, obs["base"]), obs, info
 
 
 def run_exc_direct(spec, s, r, with_tb=True):
@@ -397,8 +410,8 @@ def run_exc_direct(spec, s, r, with_tb=True):
 def run_payload_direct(payload, r):
     m, c, pairs = ve.preparse(payload)
     env, fmt, table, info = ve.environment(m, c, pairs)
-    line = "vin load %s %s %s %s %s" % (r, env, fmt, table, valtext.to_text(payload))
     obs = observe_load(payload, flags(r), m, c, info["slots"])
+    line = "vin load %s %s %s %s %s %s" % (r, env, fmt, table, obs["base"], valtext.to_text(payload))
     info.update(m=m, c=c)
     return line, obs, info
 
@@ -472,6 +485,7 @@ class Pair(object):
         if "seen" not in res:
             res["seen"] = seen_from_exception(caught, m, c, slots)
             res["exc_seen"] = caught
+        res["base"] = ve.base_token(res.get("exc_seen"))
         w.cleanup()
         return res
 
@@ -509,6 +523,7 @@ class Pair(object):
             except BaseException as ex:  # noqa
                 res["seen"] = seen_from_exception(ex, m, c, slots)
                 res["exc_seen"] = ex
+        res["base"] = ve.base_token(res.get("exc_seen"))
         w.cleanup()
         return res
 
@@ -538,7 +553,7 @@ def run_exc_e2e(pair, spec, s, r, sync=True):
     if "skip" in cap:
         raise Skip(cap["skip"])
     if "rec" in cap:
-        line = model_line_rt(s, cap["rec"][0], "e", r, cap["env"], cap["fmt"], cap["table"], cap["rec"])
+        line = model_line_rt(s, cap["rec"][0], "e", r, cap["env"], cap["fmt"], cap["table"], cap["rec"], obs["base"])
         info = cap["info"]
         info.update(m=cap["m"], c=cap["c"])
     else:
@@ -562,9 +577,9 @@ def run_payload_e2e(pair, payload, r, sync=True):
         raise Skip("frozenset iteration order does not settle over the wire")
     m, c, pairs = ve.preparse(payload)
     env, fmt, table, info = ve.environment(m, c, pairs)
-    line = "vin load %s %s %s %s %s" % (r, env, fmt, table, valtext.to_text(payload))
     pair.last_raw = None
     obs = (pair.call_sync if sync else pair.call)(lambda t, v, tb: payload, lambda: (m, c, info["slots"]))
+    line = "vin load %s %s %s %s %s %s" % (r, env, fmt, table, obs["base"], valtext.to_text(payload))
     if pair.last_raw is None or valtext.to_text(pair.last_raw) != valtext.to_text(payload):
         # a NaN inside a frozenset hashes by identity: the receiver's copy iterates in another order
         raise Skip("frozenset iteration order changed on the wire")
